@@ -95,6 +95,26 @@ CATALOGUE = {
 }
 
 
+# fixes made in /repo: reverting one must make the checks that exposed the defect fire again
+REVERTS = {
+    "revert-D5-array-skip": ("4e13d25", ["C02", "C03", "C05", "C07"]),
+    "revert-D4-enum-partial-byte": ("0fbdff7", ["C02"]),
+    "revert-D6-json-bytearray": ("f7ff4ee", ["C16"]),
+    "revert-D7-imported-nested": ("bc51773", ["C10", "C01"]),
+    "revert-D1-div-zero": ("a55b448", ["C09", "C13"]),
+    "revert-D2-string-escape": ("9ffebdb", ["C13"]),
+    "revert-D14-import-in-scope": ("57c7d5e", ["C08", "C09"]),
+    "revert-int-digit-limit": ("07afa13", ["C09"]),
+    "revert-D3-empty-enum": ("799e4b7", ["C09", "C10"]),
+    "revert-go-opt-import-order": ("4f88d64", ["C10"]),
+    "revert-D13-first-line-column": ("7b944aa", ["C20"]),
+    "revert-D9-helper-collision": ("c64a255", ["C10"]),
+    "revert-D11-include-name": ("00d9a6b", ["C10"]),
+}
+for _n, (_c, _p) in REVERTS.items():
+    CATALOGUE[_n] = (_p, [("@revert", _c, "")], f"revert of fix {_c}")
+
+
 def sh(cmd, **kw):
     return subprocess.run(cmd, text=True, capture_output=True, **kw)
 
@@ -138,6 +158,13 @@ def run_one(name, tier="quick", keep=False, props=None):
     out = {"name": name, "note": note, "results": {}}
     try:
         for (f, old, new) in edits:
+            if f == "@revert":
+                diff = sh(["git", "-C", d, "show", old]).stdout
+                r = subprocess.run(["git", "-C", d, "apply", "-R", "-"], input=diff, text=True, capture_output=True)
+                if r.returncode:
+                    out["error"] = "revert does not apply: " + r.stderr[-200:]
+                    return out
+                continue
             p = os.path.join(d, f)
             s = open(p).read()
             if old not in s:
